@@ -824,6 +824,64 @@ class Gen:
             if await self.run_to_running(first):
                 await self.g_amenddown(first)
 
+    async def scenario_parked(self):
+        """D39 / 84081f2: a step with a stored hash and dynamic inputs is validated while an input is
+        detached (parked: PENDING + deferred); the input comes back by a full recycle of its producer
+        (state intact) or by a new static declaration (re-created: the trigger sees its old state);
+        with two dynamic inputs only one of them may come back."""
+        rng = self.rng
+        plan = "./plan.py"
+        if not await self.run_to_running(plan):
+            return
+        a, b = rng.sample(STEPS, 2)
+        variant = rng.choice(["built", "static", "two", "two"])
+        dyn = {"built": ("f1",), "static": ("f0",), "two": ("f0", "f1")}[variant]
+        spec_a = ((), (), ("f1",), (), "DEFAULT")
+        spec_b = ((), (), ("f3",), (), "DEFAULT")
+        if "f0" in dyn:
+            await self.record(("declare_static", ("step", plan), ("f0",)))
+            await self.record(("update_hashes", "CONFIRMED", (("f0", self.newhash()),)))
+        for lab, spec in ((a, spec_a), (b, spec_b)):
+            if await self.record(("define_step", ("step", plan), lab, *spec)) != "ok":
+                return
+            self.defs[lab] = spec
+        self.jobs.pop(plan, None)
+        await self.record(("exec_end", plan, (), "SUCCEEDED", (), True, False))
+        if not await self.run_to_running(a):
+            return
+        self.jobs.pop(a, None)
+        await self.record(("exec_end", a, (), "SUCCEEDED", self.success_hashes(a), True, False))
+        if not await self.run_to_running(b):
+            return
+        if await self.record(("amend_step", b, dyn, (), (), ())) != "ok":
+            return
+        self.jobs.pop(b, None)
+        await self.record(("exec_end", b, (), "SUCCEEDED", self.success_hashes(b), True, False))
+        await self.record(("mark_step_pending", b))         # PENDING with a stored hash
+        await self.record(("mark_step_pending", plan))
+        if not await self.run_to_running(plan):
+            return
+        # B comes back first (full recycle); its dynamic inputs are still detached: validation parks it
+        await self.record(("define_step", ("step", plan), b, *spec_b))
+        if await self.dispatch_until(b) != "validate":
+            return
+        self.jobs.pop(b, None)
+        await self.record(("validate_pending", b))
+        # the inputs come back, in a random order, all of them or only some
+        back = list(dyn)
+        rng.shuffle(back)
+        if variant == "two" and rng.random() < 0.5:
+            back = back[:1]
+        for p in back:
+            if p == "f1":
+                await self.record(("define_step", ("step", plan), a, *spec_a))
+            else:
+                await self.record(("declare_static", ("step", plan), ("f0",)))
+        if rng.random() < 0.5 and "f0" in back:
+            await self.record(("update_hashes", "CONFIRMED", (("f0", self.newhash()),)))
+        self.jobs.pop(plan, None)
+        await self.record(("exec_end", plan, (), "SUCCEEDED", (), True, False))
+
     async def scenario_sloppy(self):
         """A step with one or two outputs (and sometimes a consumer) is recorded as successful although
         an output was never reported; the director is restarted: the consistency check must put the
@@ -865,6 +923,8 @@ class Gen:
             await self.scenario()
         elif r0 < 0.75:
             await self.scenario_family()
+        elif r0 < 0.92:
+            await self.scenario_parked()
         while len(self.trace) < self.length:
             running = self.running()
             run0 = [l for l, p in self.jobs.items() if p == "run0"]
